@@ -388,6 +388,7 @@ struct StateRec
     unsigned long long spid;
     ob::State *st;
 };
+static bool g_fixed = false;  // header "copy wc=fixed": the code under test treats a wrapper as an opaque leaf (F32 repaired)
 static std::map<unsigned long long, NodeP> spaces;
 static std::map<unsigned long long, StateRec> states;
 
@@ -576,11 +577,12 @@ int main()
         return 2;
     {
         auto h = vp::tokens(line);
-        if (h.size() != 1 || h[0] != "copy")
+        if (h.empty() || h[0] != "copy" || h.size() > 2 || (h.size() == 2 && h[1] != "wc=ub" && h[1] != "wc=fixed"))
         {
             std::cout << "bad-header\n";
             return 2;
         }
+        g_fixed = h.size() == 2 && h[1] == "wc=fixed";
     }
     auto bad = [] { std::cout << "bad-op" << std::endl; };
     while (vp::readLine(line))
@@ -747,7 +749,7 @@ int main()
             x->space->copyToReals(back, it->second.st);
             std::cout << "ok atoms=" << dumpAtoms(x, it->second.st) << " reals=" << bitsList(back) << std::endl;
         }
-        else if ((op == "csd" && t.size() == 3 && natAt(1) && natAt(2)) || (op == "csdn" && natAt(1) && natAt(2)))
+        else if ((op == "csd" && t.size() == 3 && natAt(1) && natAt(2)) || ((op == "csdn" || op == "csdnu") && natAt(1) && natAt(2)))
         {
             auto d = states.find(*natAt(1)), s = states.find(*natAt(2));
             if (d == states.end() || s == states.end())
@@ -756,7 +758,7 @@ int main()
                 continue;
             }
             NodeP dx = spaces.at(d->second.spid), sx = spaces.at(s->second.spid);
-            if (hasWC(dx) || hasWC(sx))
+            if (!g_fixed && (hasWC(dx) || hasWC(sx)))
             {
                 bad();
                 continue;
@@ -768,7 +770,9 @@ int main()
             {
                 size_t i = 3;
                 auto xs = vp::takeCounted(t, i);
-                bool ok = xs && i == t.size() && dx->kind != 'W' && sx->kind != 'W';
+                // "csdnu" = the names overload WITHOUT the guard against top-level wrappers: only the dedicated probe of
+                // F105 uses it (getSubstateAtLocation does not unwrap the wrapper's state: undefined behaviour today)
+                bool ok = xs && i == t.size() && (op == "csdnu" || (dx->kind != 'W' && sx->kind != 'W'));
                 std::vector<std::string> names;
                 if (ok)
                     for (auto &a : *xs)
@@ -796,7 +800,7 @@ int main()
                 continue;
             }
             NodeP dx = spaces.at(d->second.spid), sx = spaces.at(s->second.spid);
-            if (hasWC(dx) || hasWC(sx) || dx->kind == 'W' || sx->kind == 'W')
+            if ((!g_fixed && (hasWC(dx) || hasWC(sx))) || dx->kind == 'W' || sx->kind == 'W')
             {
                 bad();
                 continue;
@@ -1152,6 +1156,49 @@ int main()
             }
             std::cout << "ok=1 " << full.dump << " marker=" << mk << " sig=" << sg << " # bytes=" << bytes.size() << " trunc=" << tested << "/" << nbad << (nbad ? "/" + first : "")
                       << std::endl;
+        }
+        else if (op == "pdreload" && t.size() == 1 && pds)
+        {
+            // load() into a PlannerData object that held ANOTHER graph before (load() itself calls pd.clear()): a scratch
+            // graph with one more vertex than the stored one, every vertex marked start and goal, over the same states
+            bool ctl = pds->cdim >= 0;
+            std::string bytes;
+            {
+                std::ostringstream out;
+                if (ctl)
+                    oc::PlannerDataStorage().store(*pds->pd, out);
+                else
+                    ob::PlannerDataStorage().store(*pds->pd, out);
+                bytes = out.str();
+            }
+            ob::SpaceInformationPtr si;
+            oc::SpaceInformationPtr siC;
+            oc::ControlSpacePtr cs;
+            makeInfo(pds->node, pds->cdim, si, siC, cs);
+            auto used = newPD(si, siC);
+            ob::State *extra = pds->node->space->allocState();
+            garbage(pds->node, extra);
+            for (unsigned i = 0; i <= pds->pd->numVertices(); ++i)
+            {
+                const ob::State *st = i < pds->pd->numVertices() ? pds->pd->getVertex(i).getState() : extra;
+                ob::PlannerDataVertex v(st, 777);
+                used->addStartVertex(v);
+                used->addGoalVertex(v);
+            }
+            std::istringstream in(bytes);
+            bool ok = false, threw = false;
+            try
+            {
+                ok = ctl ? oc::PlannerDataStorage().load(in, *used) : ob::PlannerDataStorage().load(in, *used);
+            }
+            catch (std::exception &)
+            {
+                threw = true;
+            }
+            std::string dump = ok ? dumpPD(pds->node, pds->cdim, *used) : std::string();
+            used.reset();
+            pds->node->space->freeState(extra);
+            std::cout << "ok=" << ok << (ok ? " " + dump : "") << " # threw=" << threw << std::endl;
         }
         else if (op == "pdcross" && t.size() == 1 && pds)
         {
